@@ -48,6 +48,9 @@ struct Case {
     locals: Vec<String>,
     /// "nop" | "const" | "lget" | "block" | "call"
     body: Vec<String>,
+    /// the base module sits in a component and the function is finished with `finish_component(comp, 0)`
+    #[serde(default)]
+    via_component: bool,
 }
 
 const TYPES7: [&str; 7] = ["i32", "i64", "f32", "f64", "v128", "funcref", "externref"];
@@ -354,45 +357,69 @@ fn run_case(c: &Case) -> Outcome {
     ));
 
     let res = catch(|| {
+        let build = || {
+            let params: Vec<DataType> = c.params.iter().map(|t| dt(t)).collect();
+            let results: Vec<DataType> = c.results.iter().map(|t| dt(t)).collect();
+            let mut fb = FunctionBuilder::new(&params, &results);
+            for l in c.locals.iter() {
+                fb.add_local(dt(l));
+            }
+            fb.i32_const(TOKEN);
+            fb.drop();
+            for op in c.body.iter() {
+                match op.as_str() {
+                    "nop" => {
+                        fb.nop();
+                    }
+                    "const" => {
+                        fb.i32_const(7);
+                        fb.drop();
+                    }
+                    "lget" => {
+                        fb.local_get(LocalID(0));
+                        fb.drop();
+                    }
+                    "block" => {
+                        fb.block(BlockType::Empty);
+                        fb.end();
+                    }
+                    "call" => {
+                        fb.call(FunctionID(b.call.unwrap().0));
+                    }
+                    _ => panic!("harness: unknown body op {}", op),
+                }
+            }
+            for r in c.results.iter() {
+                emit_result_const(&mut fb, r);
+            }
+            if let Some(n) = &c.name {
+                fb.set_name(n.clone());
+            }
+            fb
+        };
+        if c.via_component {
+            let mut wc = wasm_encoder::Component::new();
+            wc.section(&wasm_encoder::RawSection { id: 1, data: bytes });
+            let wrapped = wc.finish();
+            let mut comp = wirm::Component::parse(&wrapped, false).expect("harness: wrapped base parses");
+            apply_edit(&mut comp.modules[0], b, &c.before, TOKEN_AUX_BEFORE);
+            let fb = build();
+            let id = fb.finish_component(&mut comp, wirm::ir::id::ModuleID(0));
+            comp.modules[0].exports.add_export_func("probe".to_string(), *id, None);
+            apply_edit(&mut comp.modules[0], b, &c.after, TOKEN_AUX_AFTER);
+            let enc = comp.encode();
+            let mut first = None;
+            for p in wasmparser::Parser::new(0).parse_all(&enc) {
+                if let Ok(wasmparser::Payload::ModuleSection { unchecked_range, .. }) = p {
+                    first = enc.get(unchecked_range).map(|x| x.to_vec());
+                    break;
+                }
+            }
+            return (*id, first.expect("library: the encoded component has lost its core module"));
+        }
         let mut m = Module::parse(bytes, false).expect("base parses");
         apply_edit(&mut m, b, &c.before, TOKEN_AUX_BEFORE);
-        let params: Vec<DataType> = c.params.iter().map(|t| dt(t)).collect();
-        let results: Vec<DataType> = c.results.iter().map(|t| dt(t)).collect();
-        let mut fb = FunctionBuilder::new(&params, &results);
-        for l in c.locals.iter() {
-            fb.add_local(dt(l));
-        }
-        fb.i32_const(TOKEN);
-        fb.drop();
-        for op in c.body.iter() {
-            match op.as_str() {
-                "nop" => {
-                    fb.nop();
-                }
-                "const" => {
-                    fb.i32_const(7);
-                    fb.drop();
-                }
-                "lget" => {
-                    fb.local_get(LocalID(0));
-                    fb.drop();
-                }
-                "block" => {
-                    fb.block(BlockType::Empty);
-                    fb.end();
-                }
-                "call" => {
-                    fb.call(FunctionID(b.call.unwrap().0));
-                }
-                _ => panic!("harness: unknown body op {}", op),
-            }
-        }
-        for r in c.results.iter() {
-            emit_result_const(&mut fb, r);
-        }
-        if let Some(n) = &c.name {
-            fb.set_name(n.clone());
-        }
+        let fb = build();
         let id = fb.finish_module(&mut m);
         m.exports.add_export_func("probe".to_string(), *id, None);
         apply_edit(&mut m, b, &c.after, TOKEN_AUX_AFTER);
@@ -577,6 +604,7 @@ fn mk(h: &Hist, c: &Content) -> Case {
         results: c.results.clone(),
         locals: c.locals.clone(),
         body: c.body.clone(),
+        via_component: false,
     }
 }
 
@@ -584,7 +612,7 @@ pub fn check(tier: Tier) -> i32 {
     let body_len = tier.pick(2usize, 3usize);
     let mut run = Run::new("C12", tier, "model_checking");
     run.rule = format!(
-        "FunctionBuilder::new + add_local* + helpers + [set_name] + finish_module, returned id exported; history axes full product: 4 bases (empty, 2 locals, 2 imports + 2 locals with names, imports only) x edit before x edit after (none, add_import_func, another built function, delete an unreferenced local, delete an unreferenced imported function) x name set/unset; content axes: 3249 signatures (<= 2 params x <= 2 results over i32 i64 f32 f64 v128 funcref externref), 85 local lists (<= 3 over i32 i64 v128 externref), all bodies of <= {} stack-neutral helpers (nop; i32.const+drop; local.get 0+drop; block..end; call of a []->[] function) followed by one constant per result; {}; inapplicable combinations (delete without a local function, call without callee, local.get without param) are not part of the space; non-trivial class = (base, before>after, named?, signature shape, run-length pattern of locals, body helper list)",
+        "FunctionBuilder::new + add_local* + helpers + [set_name] + finish_module (every history also once through a component wrapping the base and finish_component), returned id exported; history axes full product: 4 bases (empty, 2 locals, 2 imports + 2 locals with names, imports only) x edit before x edit after (none, add_import_func, another built function, delete an unreferenced local, delete an unreferenced imported function) x name set/unset; content axes: 3249 signatures (<= 2 params x <= 2 results over i32 i64 f32 f64 v128 funcref externref), 85 local lists (<= 3 over i32 i64 v128 externref), all bodies of <= {} stack-neutral helpers (nop; i32.const+drop; local.get 0+drop; block..end; call of a []->[] function) followed by one constant per result; {}; inapplicable combinations (delete without a local function, call without callee, local.get without param) are not part of the space; non-trivial class = (base, before>after, named?, signature shape, run-length pattern of locals, body helper list)",
         body_len,
         tier.pick(
             "quick: history product x (base content [i32]->[i32] / no locals / empty body + every single content deviation) + base history x (<= 2 content deviations)",
@@ -651,6 +679,8 @@ pub fn check(tier: Tier) -> i32 {
     // family 1: history product x <= 1 content deviation
     for h in hfull.iter() {
         let mut cases: Vec<Case> = c1.iter().map(|c| mk(h, c)).collect();
+        // the same history with the module inside a component and finish_component, on the base content
+        cases.push(Case { via_component: true, ..mk(h, &base_c) });
         flush(&mut run, "history product x <=1 content deviation", &mut cases);
     }
     // family 2 (thorough): <= 1 history deviation x pairs of content deviations
